@@ -309,6 +309,27 @@ theorem C19_descendant_complete_iff (cls : Cls) (kvs : List (Str × Val)) (name 
   · rintro ⟨q, hg, rfl⟩
     exact ⟨(q ++ [.key name], v), (C19_descendant_positions _ name hk _ v).2 ⟨⟨q, rfl⟩, hg⟩, rfl, rfl⟩
 
+/-- **Stated, not proved: the descendant wildcard with a two-step tail `'//*/name/sub'`.**  On a
+dict-rooted tree with `KeysOkV`, `ContOkV` in which no node called `name` is a list (below a list
+the step `sub` fans out, which needs its own rendering), the result is exactly the entries `sub`
+of the dictionaries called `name`, at any depth: a node called `name` that is a final element or a
+dictionary without `sub` is a miss of that branch (fix C19-d) and the search goes on.
+The soundness half (every pair of the result is a real node under the key reported) is
+`C19_keys_spell` / `C19_resolves_all`, which hold for every expression; the completeness half would
+need the induction of `Proofs/FindAllDesc.lean` (`FadPV`/`FadPK`/`FadPL`, written for the token list
+`['*', name]`) redone for a longer tail.  It is checked on the implementation (evaluator `descendant`,
+cases with `sub`, against an independent DFS oracle, lists under `name` included) and on the model
+by the streams; `C19_step_below_scalar_fixed` is an instance. -/
+def C19_descendant_tail_stmt : Prop :=
+  ∀ (cls : Cls) (kvs : List (Str × Val)) (name sub : Str), PlainKey name → PlainKey sub →
+    KeysOkV (.dict cls kvs) → ContOkV (.dict cls kvs) →
+    (∀ p w, (p, w) ∈ descV name (.dict cls kvs) → ∀ c xs, w ≠ .list c xs) →
+    ∀ re : Bool, ∃ n, ∀ fuel ≥ n, ∃ f,
+      (findallTop fuel fresh (.dict cls kvs) (['/', '/', '*', '/'] ++ name ++ ['/'] ++ sub) re).res = .ok (some f) ∧
+      ∀ xp v, (xp, v) ∈ f ↔
+        ∃ p, getAt (.dict cls kvs) (p ++ [.key name, .key sub]) = some v ∧
+          xp = slash ++ renderPos (p ++ [.key name, .key sub])
+
 /-! ## 6. every key resolves
 
 `FadInv` (`Proofs/FindAllDesc.lean`) is the invariant "the found-path list always renders the
